@@ -1587,6 +1587,11 @@ class SingleItemDecoder(object):
 
     supportIndefLength = True
 
+    #: Elements nested deeper than this are refused: every level costs a few
+    #: interpreter stack frames (nested generators), and running out of them in
+    #: the middle of error handling can abort the interpreter
+    maxNestingDepth = 100
+
     TAG_MAP = TAG_MAP
     TYPE_MAP = TYPE_MAP
 
@@ -1604,6 +1609,14 @@ class SingleItemDecoder(object):
                  **options):
 
         allowEoo = options.pop('allowEoo', False)
+
+        nestingLevel = options.get('_nestingLevel', 0)
+
+        if nestingLevel > self.maxNestingDepth:
+            raise error.PyAsn1Error(
+                'ASN.1 structure nested deeper than %d levels' % self.maxNestingDepth)
+
+        options['_nestingLevel'] = nestingLevel + 1
 
         if LOG:
             LOG('decoder called at scope %s with state %d, working with up '
